@@ -393,7 +393,10 @@ c_and = Contract('formulas.ranges:Ranges.__and__', dict(self=RangesT(0, 1, 2), o
                  name='Ranges.__and__', use=['range2parts[FR]', '_intersect'])
 c_and_d = Contract('formulas.ranges:Ranges.__and__', dict(self=RangesT(1, 2), other=RangesT(1)), 'C06',
                    name='Ranges.__and__[direct]', use=['range2parts[FR]'])
-for _c in (c_and, c_and_d):
+c_and3 = Contract('formulas.ranges:Ranges.__and__', dict(self=RangesT(3), other=RangesT(1, 2, 3)), 'C06',
+                  name='Ranges.__and__[3 areas]', use=['range2parts[FR]', '_intersect'])
+c_and3.thorough_only = True          # about 10 minutes: explored in the thorough tier only
+for _c in (c_and, c_and_d, c_and3):
     CONTRACTS.append(_c)
 
     @_c.requires
